@@ -322,4 +322,103 @@ theorem listener_usage_is_open_listeners (nk : Nat) (progs : List (List Op)) (sc
         simp at hx, cleanClients_init progs hp, fun _ => reachable_init⟩
   exact count_is_remembered_references_when_idle hall.1 (hall.2.2 hall.2.1.1) hidle hpool
 
+/-! ### the per-request client of the hosts pool (`requests` lines) -/
+
+theorem runOps_preserves (nk : Nat) (P : Sys → Prop) (hP : ∀ y t, P y → P (tstep nk y t)) :
+    ∀ (n : Nat) (y : Sys) (t : Nat), P y → P (runOps nk n y t)
+  | 0, _, _, h => h
+  | n + 1, y, t, h => runOps_preserves nk P hP n _ t (stepOp_preserves nk P hP 24 y t h)
+
+theorem runGroupsSys_preserves (nk : Nat) (P : Sys → Prop) (hP : ∀ y t, P y → P (tstep nk y t))
+    (progs : List (List (List Op))) (sched : List Nat)
+    (h0 : P { g := G.init, threads := progs.map fun p => { prog := p.flatten } }) :
+    P (runGroupsSys nk progs sched).1 := by
+  have hstep : ∀ (a : GroupAcc) (t : Nat), P a.1 → P (groupStep nk a t).1 := by
+    intro a t h
+    unfold groupStep
+    split
+    · exact runOps_preserves nk P hP _ a.1 t h
+    · exact h
+  have hfold : ∀ (sc : List Nat) (a : GroupAcc), P a.1 → P (sc.foldl (groupStep nk) a).1 := by
+    intro sc
+    induction sc with
+    | nil => intro a h; exact h
+    | cons t ts ih => intro a h; exact ih _ (hstep a t h)
+  have hdrain : ∀ (fuel : Nat) (a : GroupAcc), P a.1 → P (drainGroups nk fuel a).1 := by
+    intro fuel
+    induction fuel with
+    | zero => intro a h; exact h
+    | succ n ih =>
+      intro a h
+      unfold drainGroups
+      split
+      · exact h
+      · exact ih _ (hstep a _ h)
+  unfold runGroupsSys
+  exact hdrain _ _ (hfold sched _ h0)
+
+theorem sound_init (progs : List (List Op)) : Sound { g := G.init, threads := progs.map fun p => { prog := p } } := by
+  refine ⟨⟨?_, ?_⟩, ⟨?_, ?_, ?_, mapOk_init⟩, ?_, ?_, rfl⟩
+  · intro e he; exact absurd he (Nat.not_lt_zero _)
+  · intro th hth x hx
+    simp only [List.mem_map] at hth
+    obtain ⟨p, _, rfl⟩ := hth
+    simp at hx
+  · intro p e he; exact absurd he (Nat.not_lt_zero _)
+  · intro th hth p e hpe
+    simp only [List.mem_map] at hth
+    obtain ⟨q, _, rfl⟩ := hth
+    simp [pcAt] at hpe
+  · intro th hth _
+    simp only [List.mem_map] at hth
+    obtain ⟨q, _, rfl⟩ := hth
+    rfl
+  · intro th hth
+    simp only [List.mem_map] at hth
+    obtain ⟨q, _, rfl⟩ := hth
+    simp [PcOk]
+  · intro th hth x hx
+    simp only [List.mem_map] at hth
+    obtain ⟨q, _, rfl⟩ := hth
+    simp at hx
+
+theorem noRaw_requestOps (ks : List Nat) : NoRawDelete (requestOps ks) := by
+  intro op hop k
+  simp only [requestOps, List.mem_append, List.mem_map] at hop
+  rcases hop with ⟨a, _, rfl⟩ | ⟨a, _, rfl⟩ <;> simp
+
+theorem noRaw_handlerLoadOps (ks : List Nat) : NoRawDelete (handlerLoadOps ks) := by
+  intro op hop k
+  simp only [handlerLoadOps, List.mem_map] at hop
+  obtain ⟨a, _, rfl⟩ := hop; simp
+
+/-- **the per-request client keeps the count right.**  Handlers that load their static upstreams
+    (`handlerLoadOps`), serve requests whose dynamic source returns ANY addresses — also addresses of static upstreams
+    of the same or another handler — (`requestOps`: one acquisition per returned upstream, one release for each of
+    THEM), and unload (`closeAll`), in any order of whole calls: whenever no call is in progress, the count of an
+    address in the pool is exactly the number of references the handlers remember — a request changes no count. -/
+theorem per_request_client_keeps_count (nk : Nat) (progs : List (List (List Op))) (sched : List Nat)
+    (hp : ∀ p ∈ progs, ∀ grp ∈ p, NoRawDelete grp)
+    (hidle : ∀ th ∈ (runGroupsSys nk progs sched).1.threads, th.pc = .idle) {k e : Nat}
+    (hpool : (runGroupsSys nk progs sched).1.g.pool k = some e) :
+    ((runGroupsSys nk progs sched).1.g.ent e).refs = (holdCount (runGroupsSys nk progs sched).1.threads e : Nat) := by
+  have hflat : ∀ p ∈ progs.map List.flatten, NoRawDelete p := by
+    intro p hpm
+    simp only [List.mem_map] at hpm
+    obtain ⟨q, hq, rfl⟩ := hpm
+    intro op hop kk
+    simp only [List.mem_flatten] at hop
+    obtain ⟨grp, hg, hmem⟩ := hop
+    exact hp q hq grp hg op hmem kk
+  have h0 : (fun y => Sound y ∧ CleanClients y ∧ (y.clean = true → Reachable y.g))
+      { g := G.init, threads := progs.map fun p => { prog := p.flatten } } := by
+    have e1 : (progs.map fun p => ({ prog := p.flatten } : Thread)) = (progs.map List.flatten).map fun p => { prog := p } := by
+      simp [List.map_map]
+    rw [e1]
+    exact ⟨sound_init _, cleanClients_init _ hflat, fun _ => reachable_init⟩
+  have hall := runGroupsSys_preserves nk (fun y => Sound y ∧ CleanClients y ∧ (y.clean = true → Reachable y.g))
+    (fun y t h => ⟨sound_tstep nk y t h.1, cleanClients_tstep nk y t h.2.1, tstep_reachable nk y t h.2.2⟩)
+    progs sched h0
+  exact count_is_remembered_references_when_idle hall.1 (hall.2.2 hall.2.1.1) hidle hpool
+
 end CaddyModel.C04
